@@ -8,7 +8,7 @@ package main
 // httpscn, grpcscn (scenario providers), genjson (core/provider JSON provider over MultiPassReader).
 // See harness/c08cell for what each mode does.  Observation per mode:
 //   drain   delivered=2 cut=0 run=nil end=closed seq=ok ops=5
-//   ext     delivered=2 cut=0 fired=1 run=canceled end=closed seq=ok ops=5
+//   ext     delivered=2 cut=0 fired=1 run=canceled end=closed seq=ok ops=5      (tcan: the same)
 //   stall   delivered=2 cut=1 ret=1 run=canceled left=0 end=closed seq=ok
 //   engine  shots=4 err=nil wait=1 seq=ok
 //     run   = what Provider.Run returned (nil|canceled|limit|passes|noammo|other:..|noreturn)
@@ -69,6 +69,7 @@ type cell struct {
 	junk                  bool
 	mode, via             string
 	at, shots, pad        int
+	jit                   int
 }
 
 func b2i(x bool) int {
@@ -87,8 +88,11 @@ func (c cell) line() string {
 	if c.via != "" && c.via != "direct" {
 		s += " via=" + c.via
 	}
-	if c.mode == "ext" {
+	if c.mode == "ext" || c.mode == "tcan" {
 		s += fmt.Sprintf(" at=%d", c.at)
+	}
+	if c.jit != 0 {
+		s += fmt.Sprintf(" jit=%d", c.jit)
 	}
 	if c.mode == "engine" {
 		s += fmt.Sprintf(" shots=%d", c.shots)
@@ -108,7 +112,7 @@ func gen(r *rand.Rand, tier string) []string {
 	// A. exhaustive small matrix, consumers always ready, unbounded cells cut at cap
 	maxL, maxP, maxN := 4, 3, 4
 	if thorough {
-		maxL, maxP, maxN = 9, 4, 8
+		maxL, maxP, maxN = 12, 5, 10
 	}
 	for _, v := range vs {
 		for limit := 0; limit <= maxL; limit++ {
@@ -137,12 +141,22 @@ func gen(r *rand.Rand, tier string) []string {
 			}
 		}
 	}
+	// racy families are repeated with different consumer jitter (thorough)
+	reps := []int{0}
+	if thorough {
+		reps = []int{0, 1, 2, 3, 4, 5, 6, 7}
+	}
 	for _, v := range vs {
 		for _, b := range bs {
 			m, _ := expected(b.limit, b.passes, b.n)
 			for cp := 1; cp <= m+1; cp++ {
 				for _, cons := range []int{1, 3} {
-					add(cell{v: v, limit: b.limit, passes: b.passes, n: b.n, cons: cons, cap: cp})
+					for _, rep := range reps {
+						if rep != 0 && cons == 1 {
+							continue
+						}
+						add(cell{v: v, limit: b.limit, passes: b.passes, n: b.n, cons: cons, cap: cp, jit: rep})
+					}
 				}
 			}
 		}
@@ -159,7 +173,12 @@ func gen(r *rand.Rand, tier string) []string {
 		for _, b := range sb {
 			for _, cp := range caps {
 				for _, cons := range []int{1, 2} {
-					add(cell{v: v, limit: b.limit, passes: b.passes, n: b.n, cons: cons, cap: cp, mode: "stall"})
+					for _, rep := range reps {
+						if rep > 3 {
+							continue
+						}
+						add(cell{v: v, limit: b.limit, passes: b.passes, n: b.n, cons: cons, cap: cp, mode: "stall", jit: rep})
+					}
 				}
 			}
 		}
@@ -179,7 +198,26 @@ func gen(r *rand.Rand, tier string) []string {
 			for _, pad := range pads {
 				for at := 0; at <= maxAt; at++ {
 					cons := 1 + (at+b.n)%3
-					add(cell{v: v, limit: b.limit, passes: b.passes, n: b.n, cons: cons, cap: capFor(b.limit, b.passes, b.n), mode: "ext", at: at, pad: pad})
+					add(cell{v: v, limit: b.limit, passes: b.passes, n: b.n, cons: cons, cap: capFor(b.limit, b.passes, b.n), mode: "ext", at: at, pad: pad, junk: at%2 == 1})
+				}
+			}
+		}
+	}
+
+	// D2. cancel from a timer, `at` microseconds after Run was started: any point of the provider's code
+	tb := []bnd{{0, 0, 3}, {5, 0, 2}, {0, 2, 3}}
+	ats := []int{0, 20, 100, 400}
+	if thorough {
+		tb = append(tb, bnd{0, 0, 1}, bnd{40, 0, 7}, bnd{0, 6, 5}, bnd{300, 0, 3})
+		ats = []int{0, 5, 10, 20, 35, 50, 75, 100, 150, 200, 300, 400, 600, 1000, 2000}
+	}
+	for _, v := range vs {
+		for _, b := range tb {
+			for i, at := range ats {
+				for _, cons := range []int{1, 3} {
+					for _, rep := range reps {
+						add(cell{v: v, limit: b.limit, passes: b.passes, n: b.n, cons: cons, cap: capFor(b.limit, b.passes, b.n), mode: "tcan", at: at, jit: rep + (i+cons)%2, pad: (i % 3) * 700})
+					}
 				}
 			}
 		}
@@ -199,7 +237,12 @@ func gen(r *rand.Rand, tier string) []string {
 					if _, ok := expected(b.limit, b.passes, b.n); !ok && sh == 0 {
 						continue // nothing would end that run
 					}
-					add(cell{v: v, limit: b.limit, passes: b.passes, n: b.n, cons: inst, mode: "engine", via: "cfg", shots: sh})
+					for _, rep := range reps {
+						if rep > 3 {
+							continue
+						}
+						add(cell{v: v, limit: b.limit, passes: b.passes, n: b.n, cons: inst, mode: "engine", via: "cfg", shots: sh, jit: rep})
+					}
 				}
 			}
 		}
@@ -220,7 +263,7 @@ func gen(r *rand.Rand, tier string) []string {
 	extra := 400
 	maxN, maxL, maxP = 12, 30, 6
 	if thorough {
-		extra = 9000
+		extra = 80000
 		maxN, maxL, maxP = 40, 300, 12
 	}
 	for i := 0; i < extra; i++ {
@@ -264,6 +307,10 @@ func gen(r *rand.Rand, tier string) []string {
 		case 1:
 			c.mode = "ext"
 			c.at = r.Intn(30)
+		case 4:
+			c.mode = "tcan"
+			c.at = r.Intn(500)
+			c.jit = r.Intn(5)
 		case 2:
 			c.mode = "engine"
 			c.via = "cfg"
@@ -301,6 +348,7 @@ func run(input string) string {
 		Pad:     atoi(kv["pad"]),
 		Mode:    kv["mode"],
 		At:      atoi(kv["at"]),
+		Jit:     atoi(kv["jit"]),
 		Via:     kv["via"],
 		Shots:   atoi(kv["shots"]),
 	}
@@ -314,7 +362,7 @@ func run(input string) string {
 	switch c.Mode {
 	case "stall":
 		return fmt.Sprintf("delivered=%d cut=%d ret=%d run=%s left=%d end=%s seq=%s", o.Delivered, b2i(o.Cut), b2i(o.Ret), o.Run, o.Left, o.End, o.Seq)
-	case "ext":
+	case "ext", "tcan":
 		return fmt.Sprintf("delivered=%d cut=%d fired=%d run=%s end=%s seq=%s ops=%d", o.Delivered, b2i(o.Cut), b2i(o.Fired), o.Run, o.End, o.Seq, o.Ops)
 	case "engine":
 		return fmt.Sprintf("shots=%d err=%s wait=%d seq=%s", o.Shots, o.EngErr, b2i(o.Wait), o.Seq)
@@ -359,7 +407,7 @@ func main() {
 		Rule: "real providers (public constructors, or the registered plugin factories via config.DecodeAndValidate) over an in-memory ammo file: " +
 			"exhaustive matrix kinds{uri,uris,uripost,raw,jsonl,jsonarr}x preload + {grpcjson,httpscn,grpcscn,genjson} x limit 0..4 x passes 0..3 x n 1..4 x consumers{1,3} with consumers always ready " +
 			"(unbounded cells cancelled after cap acquisitions); cancellation after every number of deliveries 1..M+1 of bounded cells; consumers that stop after cap acquisitions followed by a cancel (stall); " +
-			"cancellation from inside the k-th file operation (ext); a slice through the real core/engine with 1 or 3 instances and a recording gun; random larger cells in all modes. " +
+			"cancellation from inside the k-th file operation (ext) and from a timer (tcan); a slice through the real core/engine with 1 or 3 instances and a recording gun; random larger cells in all modes. " +
 			"Every cell is non-trivial (class = mode:kind/preload/bound shape)",
 	})
 }
